@@ -17,33 +17,33 @@ import (
 	"strings"
 )
 
-type cfgTy struct {
+type c04CfgTy struct {
 	K      string // scalar | list | map | struct | any | ref
 	Go     string
-	Elem   *cfgTy
+	Elem   *c04CfgTy
 	Ref    int
-	Fields []cfgField
+	Fields []c04CfgField
 }
 
-type cfgField struct {
+type c04CfgField struct {
 	Key string
-	Ty  *cfgTy
+	Ty  *c04CfgTy
 }
 
-type cfgFile struct {
+type c04CfgFile struct {
 	Name string
-	Defs []cfgDef
+	Defs []c04CfgDef
 	Root int
 }
 
-type cfgDef struct {
+type c04CfgDef struct {
 	Name string
-	Ty   *cfgTy
+	Ty   *c04CfgTy
 }
 
 // ---------- loading the tables ----------
 
-func cfgFromFacts(path string) (map[string]*cfgFile, error) {
+func c04CfgFromFacts(path string) (map[string]*c04CfgFile, error) {
 	raw, err := os.ReadFile(path)
 	if err != nil {
 		return nil, err
@@ -64,8 +64,8 @@ func cfgFromFacts(path string) (map[string]*cfgFile, error) {
 	if err := json.Unmarshal(raw, &doc); err != nil {
 		return nil, err
 	}
-	var conv func(raw json.RawMessage) (*cfgTy, error)
-	conv = func(raw json.RawMessage) (*cfgTy, error) {
+	var conv func(raw json.RawMessage) (*c04CfgTy, error)
+	conv = func(raw json.RawMessage) (*c04CfgTy, error) {
 		var t struct {
 			K    string          `json:"k"`
 			Go   string          `json:"go"`
@@ -75,7 +75,7 @@ func cfgFromFacts(path string) (map[string]*cfgFile, error) {
 		if err := json.Unmarshal(raw, &t); err != nil {
 			return nil, err
 		}
-		out := &cfgTy{K: t.K, Go: t.Go, Ref: t.Ref}
+		out := &c04CfgTy{K: t.K, Go: t.Go, Ref: t.Ref}
 		switch t.K {
 		case "fmap":
 			out.K = "map"
@@ -92,19 +92,19 @@ func cfgFromFacts(path string) (map[string]*cfgFile, error) {
 		}
 		return out, nil
 	}
-	files := map[string]*cfgFile{}
+	files := map[string]*c04CfgFile{}
 	for _, f := range doc.Files {
-		cf := &cfgFile{Name: f.Name, Root: f.Lroot}
+		cf := &c04CfgFile{Name: f.Name, Root: f.Lroot}
 		for _, s := range f.Lenv {
-			st := &cfgTy{K: "struct"}
+			st := &c04CfgTy{K: "struct"}
 			for _, fd := range s.Fields {
 				ty, err := conv(fd.Ty)
 				if err != nil {
 					return nil, err
 				}
-				st.Fields = append(st.Fields, cfgField{fd.Key, ty})
+				st.Fields = append(st.Fields, c04CfgField{fd.Key, ty})
 			}
-			cf.Defs = append(cf.Defs, cfgDef{s.Name, st})
+			cf.Defs = append(cf.Defs, c04CfgDef{s.Name, st})
 		}
 		files[f.Name] = cf
 	}
@@ -114,14 +114,14 @@ func cfgFromFacts(path string) (map[string]*cfgFile, error) {
 	return files, nil
 }
 
-func cfgFromPublished() (map[string]*cfgFile, error) {
-	files := map[string]*cfgFile{}
+func c04CfgFromPublished() (map[string]*c04CfgFile, error) {
+	files := map[string]*c04CfgFile{}
 	for name, path := range map[string]string{"pipeline": "schemas/pipeline.json", "compiler": "schemas/compiler_passes.json", "veneers": "schemas/veneers.json"} {
 		raw, err := os.ReadFile(path)
 		if err != nil {
 			return nil, err
 		}
-		root, err := jParse(raw)
+		root, err := c04JParse(raw)
 		if err != nil {
 			return nil, err
 		}
@@ -133,10 +133,10 @@ func cfgFromPublished() (map[string]*cfgFile, error) {
 		for i, k := range defs.keys {
 			index[k] = i
 		}
-		var conv func(n *jNode) (*cfgTy, error)
-		conv = func(n *jNode) (*cfgTy, error) {
+		var conv func(n *c04JNode) (*c04CfgTy, error)
+		conv = func(n *c04JNode) (*c04CfgTy, error) {
 			if n.kind == "bool" {
-				return &cfgTy{K: "any"}, nil
+				return &c04CfgTy{K: "any"}, nil
 			}
 			if n.kind != "obj" {
 				return nil, fmt.Errorf("%s: schema node is not an object", path)
@@ -147,7 +147,7 @@ func cfgFromPublished() (map[string]*cfgFile, error) {
 				if !ok {
 					return nil, fmt.Errorf("%s: dangling $ref %s", path, ref.s)
 				}
-				return &cfgTy{K: "ref", Ref: i}, nil
+				return &c04CfgTy{K: "ref", Ref: i}, nil
 			}
 			typ := ""
 			if t := n.get("type"); t != nil {
@@ -155,30 +155,30 @@ func cfgFromPublished() (map[string]*cfgFile, error) {
 			}
 			switch typ {
 			case "string":
-				return &cfgTy{K: "scalar", Go: "string"}, nil
+				return &c04CfgTy{K: "scalar", Go: "string"}, nil
 			case "boolean":
-				return &cfgTy{K: "scalar", Go: "bool"}, nil
+				return &c04CfgTy{K: "scalar", Go: "bool"}, nil
 			case "integer", "number":
-				return &cfgTy{K: "scalar", Go: "int"}, nil
+				return &c04CfgTy{K: "scalar", Go: "int"}, nil
 			case "array":
 				it := n.get("items")
 				if it == nil {
-					return &cfgTy{K: "list", Elem: &cfgTy{K: "any"}}, nil
+					return &c04CfgTy{K: "list", Elem: &c04CfgTy{K: "any"}}, nil
 				}
 				e, err := conv(it)
 				if err != nil {
 					return nil, err
 				}
-				return &cfgTy{K: "list", Elem: e}, nil
+				return &c04CfgTy{K: "list", Elem: e}, nil
 			case "object":
 				if p := n.get("properties"); p != nil && p.kind == "obj" {
-					st := &cfgTy{K: "struct"}
+					st := &c04CfgTy{K: "struct"}
 					for i, k := range p.keys {
 						ft, err := conv(p.vals[i])
 						if err != nil {
 							return nil, err
 						}
-						st.Fields = append(st.Fields, cfgField{k, ft})
+						st.Fields = append(st.Fields, c04CfgField{k, ft})
 					}
 					return st, nil
 				}
@@ -187,21 +187,21 @@ func cfgFromPublished() (map[string]*cfgFile, error) {
 					if err != nil {
 						return nil, err
 					}
-					return &cfgTy{K: "map", Elem: e}, nil
+					return &c04CfgTy{K: "map", Elem: e}, nil
 				}
-				return &cfgTy{K: "struct"}, nil
+				return &c04CfgTy{K: "struct"}, nil
 			case "":
-				return &cfgTy{K: "any"}, nil
+				return &c04CfgTy{K: "any"}, nil
 			}
 			return nil, fmt.Errorf("%s: unsupported schema type %q", path, typ)
 		}
-		cf := &cfgFile{Name: name}
+		cf := &c04CfgFile{Name: name}
 		for i, k := range defs.keys {
 			ty, err := conv(defs.vals[i])
 			if err != nil {
 				return nil, err
 			}
-			cf.Defs = append(cf.Defs, cfgDef{k, ty})
+			cf.Defs = append(cf.Defs, c04CfgDef{k, ty})
 		}
 		rr := root.get("$ref")
 		if rr == nil {
@@ -217,21 +217,21 @@ func cfgFromPublished() (map[string]*cfgFile, error) {
 	return files, nil
 }
 
-func cfgLoad(factsPath string) (map[string]*cfgFile, string, error) {
+func c04CfgLoad(factsPath string) (map[string]*c04CfgFile, string, error) {
 	if factsPath != "" {
-		if f, err := cfgFromFacts(factsPath); err == nil {
+		if f, err := c04CfgFromFacts(factsPath); err == nil {
 			return f, "facts.json", nil
 		}
 	}
-	f, err := cfgFromPublished()
+	f, err := c04CfgFromPublished()
 	return f, "published-schemas", err
 }
 
 // ---------- generation ----------
 
-type cfgGen struct {
+type c04CfgGen struct {
 	r      *rng
-	file   *cfgFile
+	file   *c04CfgFile
 	fault  int // percent chance, per node, of a wrong-shaped value
 	asbad  bool
 	faults int
@@ -240,118 +240,133 @@ type cfgGen struct {
 	fields []string
 	paths  []string
 	maxDep int
+	optSel bool // inside a rule whose selector addresses options (by_name = object.option)
 }
 
-var cfgKinds = []string{"scalar", "ref", "array", "map", "struct", "enum", "disjunction", "intersection", "constant_ref", "composable_slot"}
-var cfgPayload = map[string]string{"scalar": "scalar", "ref": "ref", "array": "array", "map": "map", "struct": "struct", "enum": "enum",
+var c04CfgKinds = []string{"scalar", "ref", "array", "map", "struct", "enum", "disjunction", "intersection", "constant_ref", "composable_slot"}
+var c04CfgPayload = map[string]string{"scalar": "scalar", "ref": "ref", "array": "array", "map": "map", "struct": "struct", "enum": "enum",
 	"disjunction": "disjunction", "intersection": "intersection", "constant_ref": "constantreference", "composable_slot": "composable_slot"}
-var cfgScalarKinds = []string{"string", "bool", "int64", "int32", "uint8", "float64", "float32", "any", "bytes", "null", "uint64", "int8", "nope", ""}
+var c04CfgScalarKinds = []string{"string", "bool", "int64", "int32", "uint8", "float64", "float32", "any", "bytes", "null", "uint64", "int8", "nope", ""}
 
-func (g *cfgGen) isTypeDef(name string) bool {
+func (g *c04CfgGen) isTypeDef(name string) bool {
 	return name == "ast.Type" || name == "AstType"
 }
 
-func (g *cfgGen) wrong() *jNode {
+// the shapes yaml.v3 lets through strict decoding (null for anything, empty collections, a null
+// inside a list) are the ones that reach cog's own code; arbitrary shapes are kept at a lower rate
+func (g *c04CfgGen) wrong() *c04JNode {
 	g.faults++
+	switch g.r.intn(10) {
+	case 0, 1, 2:
+		return c04JNull()
+	case 3:
+		return c04JArr()
+	case 4:
+		return c04JObj()
+	case 5, 6:
+		return c04JArr(c04JNull())
+	case 7:
+		return c04JStr("")
+	}
 	return c04WeirdValue(g.r, 1)
 }
 
-func (g *cfgGen) str(key string) *jNode {
+func (g *c04CfgGen) str(key string) *c04JNode {
 	r := g.r
 	k := strings.ToLower(key)
 	obj := func() string { return pick(r, g.pkgs) + "." + pick(r, g.objs) }
 	switch {
 	case k == "kind":
-		return jStr(pick(r, append([]string{"core", "composable"}, cfgKinds...)))
+		return c04JStr(pick(r, append([]string{"core", "composable"}, c04CfgKinds...)))
 	case k == "scalar_kind":
-		return jStr(pick(r, cfgScalarKinds))
+		return c04JStr(pick(r, c04CfgScalarKinds))
 	case k == "variant" || k == "by_variant":
-		return jStr(pick(r, []string{"dataquery", "panelcfg", "", "nope"}))
+		return c04JStr(pick(r, []string{"dataquery", "panelcfg", "", "nope"}))
 	case k == "language":
-		return jStr(pick(r, []string{"all", "go", "python", "typescript", "java", "php", "", "nope"}))
+		return c04JStr(pick(r, []string{"all", "go", "python", "typescript", "java", "php", "", "nope"}))
 	case k == "package" || k == "referred_pkg":
-		return jStr(pick(r, g.pkgs))
+		return c04JStr(pick(r, g.pkgs))
 	case k == "referred_type" || k == "by_object" || k == "source" || k == "destination" || k == "builder" || k == "source_builder_name" || k == "composed_builder_name":
-		return jStr(pick(r, g.objs))
+		return c04JStr(pick(r, g.objs))
 	case k == "object" && g.file.Name == "veneers":
-		return jStr(pick(r, g.objs))
+		return c04JStr(pick(r, g.objs))
 	case k == "by_name" || k == "by_builder":
-		if r.chance(50) {
-			return jStr(pick(r, g.objs) + "." + pick(r, g.fields))
+		if g.optSel != r.chance(g.fault) {
+			return c04JStr(pick(r, g.objs) + "." + pick(r, g.fields))
 		}
-		return jStr(pick(r, g.objs))
+		return c04JStr(pick(r, g.objs))
 	case k == "object" || k == "from" || k == "to" || k == "objects" || k == "allowed_objects":
-		if r.chance(8) {
-			return jStr(pick(r, []string{"", "a", "a.b.c", ".", "p.", ".Foo"}))
+		if r.chance(g.fault) {
+			return c04JStr(pick(r, []string{"", "a", "a.b.c", ".", "p.", ".Foo"}))
 		}
-		return jStr(obj())
+		return c04JStr(obj())
 	case k == "as":
 		if r.chance(50) {
-			return jStr(obj())
+			return c04JStr(obj())
 		}
-		return jStr(pick(r, g.objs))
+		return c04JStr(pick(r, g.objs))
 	case k == "field" || k == "fields" || k == "omit_fields":
 		if g.file.Name == "veneers" {
-			return jStr(pick(r, g.fields))
+			return c04JStr(pick(r, g.fields))
 		}
-		if r.chance(8) {
-			return jStr(pick(r, []string{"", "a.b", "a.b.c.d", ".."}))
+		if r.chance(g.fault) {
+			return c04JStr(pick(r, []string{"", "a.b", "a.b.c.d", ".."}))
 		}
 		if k == "omit_fields" {
-			return jStr(pick(r, g.fields))
+			return c04JStr(pick(r, g.fields))
 		}
-		return jStr(obj() + "." + pick(r, g.fields))
+		return c04JStr(obj() + "." + pick(r, g.fields))
 	case k == "name" || k == "property" || k == "options" || k == "exclude_options" || k == "entry_point" || k == "true_as" || k == "false_as" || k == "plugin_discriminator_field" || k == "under_path":
-		return jStr(pick(r, append([]string{"", "x", "Opt", "with x"}, g.fields...)))
+		return c04JStr(pick(r, append([]string{"", "x", "Opt", "with x"}, g.fields...)))
 	case k == "path" || k == "method":
 		if g.file.Name == "veneers" {
 			if k == "method" {
-				return jStr(pick(r, []string{"direct", "append", "index", "", "nope"}))
+				return c04JStr(pick(r, []string{"direct", "append", "index", "", "nope"}))
 			}
-			return jStr(pick(r, []string{"a", "a.b", "", ".", "a..b", "kind", "items", "a[0]"}))
+			return c04JStr(pick(r, []string{"a", "a.b", "", ".", "a..b", "kind", "items", "a[0]"}))
 		}
-		return jStr(pick(r, g.paths))
+		return c04JStr(pick(r, g.paths))
 	case k == "entrypoint" || k == "directory" || k == "repository_templates" || k == "transformations" || k == "schemas" || k == "builders" || k == "extra_files_templates" || k == "overrides_templates":
-		return jStr(pick(r, g.paths))
+		return c04JStr(pick(r, g.paths))
 	case k == "url":
-		return jStr(pick(r, []string{"", ":", "file:///nope", "%zz", "nope"}))
+		return c04JStr(pick(r, []string{"", ":", "file:///nope", "%zz", "nope"}))
 	case k == "if":
-		return jStr(pick(r, []string{"", "true", "false", "1 +", "1", "sprintf('%s', 1)", "semver('1.0.0').Major > 0", "semver('x').Major > 0", "nil.x", "[1][5]", "1/0 > 0", "sprintf(1)", "semver()"}))
+		return c04JStr(pick(r, []string{"", "true", "false", "1 +", "1", "sprintf('%s', 1)", "semver('1.0.0').Major > 0", "semver('x').Major > 0", "nil.x", "[1][5]", "1/0 > 0", "sprintf(1)", "semver()"}))
 	case k == "op":
-		return jStr(pick(r, []string{"minLength", "maxLength", ">", ">=", "<", "<=", "==", "!=", "multipleOf", "", "nope"}))
+		return c04JStr(pick(r, []string{"minLength", "maxLength", ">", ">=", "<", "<=", "==", "!=", "multipleOf", "", "nope"}))
 	case k == "cue_imports":
-		return jStr(pick(r, []string{"", ":", "a:b", "%__config_dir%/in:github.com/x/y", "nocolon"}))
+		return c04JStr(pick(r, []string{"", ":", "a:b", "%__config_dir%/in:github.com/x/y", "nocolon"}))
 	case k == "version" || k == "identifier" || k == "forced_envelope" || k == "discriminator":
-		return jStr(pick(r, []string{"", "x", "kind", "next", "v1.0.0"}))
+		return c04JStr(pick(r, []string{"", "x", "kind", "next", "v1.0.0"}))
 	}
-	return jStr(pick(r, []string{"", "x", "Foo", "a b", "%l", "%nope%", "é"}))
+	return c04JStr(pick(r, []string{"", "x", "Foo", "a b", "%l", "%nope%", "é"}))
 }
 
 // a well-formed (or, with bad=true, deliberately payload-less / mismatched) ast.Type document
-func (g *cfgGen) astType(depth int, def *cfgTy) *jNode {
+func (g *c04CfgGen) astType(depth int, def *c04CfgTy) *c04JNode {
 	r := g.r
-	kind := pick(r, cfgKinds)
+	kind := pick(r, c04CfgKinds)
 	if depth >= 2 {
 		kind = pick(r, []string{"scalar", "ref", "scalar", "enum"})
 	}
-	n := jObj("kind", jStr(kind))
+	n := c04JObj("kind", c04JStr(kind))
 	bad := r.chance(g.fault)
-	payloadKey := cfgPayload[kind]
+	payloadKey := c04CfgPayload[kind]
 	if bad {
 		g.asbad = true
 		switch r.intn(4) {
 		case 0: // no payload at all
 			payloadKey = ""
 		case 1: // payload of another kind
-			payloadKey = cfgPayload[pick(r, cfgKinds)]
-			if payloadKey == cfgPayload[kind] {
+			payloadKey = c04CfgPayload[pick(r, c04CfgKinds)]
+			if payloadKey == c04CfgPayload[kind] {
 				payloadKey = ""
 			}
 		case 2: // payload present but null
-			n.set(payloadKey, jNull())
+			n.set(payloadKey, c04JNull())
 			payloadKey = ""
 		default: // unknown kind
-			n.set("kind", jStr(pick(r, []string{"", "nope", "Struct"})))
+			n.set("kind", c04JStr(pick(r, []string{"", "nope", "Struct"})))
 		}
 	}
 	if payloadKey != "" {
@@ -362,51 +377,51 @@ func (g *cfgGen) astType(depth int, def *cfgTy) *jNode {
 		}
 	}
 	if r.chance(20) {
-		n.set("nullable", jBool(true))
+		n.set("nullable", c04JBool(true))
 	}
 	if r.chance(15) {
 		n.set("default", c04WeirdValue(r, 1))
 	}
 	if r.chance(15) {
-		n.set("hints", jObj(pick(r, []string{"kind", "implements_variant", "skip_variant_plugin_registration", "string_format_datetime"}), c04WeirdValue(r, 2)))
+		n.set("hints", c04JObj(pick(r, []string{"kind", "implements_variant", "skip_variant_plugin_registration", "string_format_datetime"}), c04WeirdValue(r, 2)))
 	}
 	return n
 }
 
-func (g *cfgGen) gen(t *cfgTy, key string, depth int) *jNode {
+func (g *c04CfgGen) gen(t *c04CfgTy, key string, depth int) *c04JNode {
 	r := g.r
 	if depth > 0 && r.chance(g.fault) {
 		return g.wrong()
 	}
 	if depth > g.maxDep {
-		return jNull()
+		return c04JNull()
 	}
 	switch t.K {
 	case "scalar":
 		switch t.Go {
 		case "bool":
-			return jBool(r.chance(50))
+			return c04JBool(r.chance(50))
 		case "int":
-			return jNum(pick(r, []string{"0", "1", "2", "-1", "99", "9223372036854775807"}))
+			return c04JNum(pick(r, []string{"0", "1", "2", "-1", "99", "9223372036854775807"}))
 		}
 		return g.str(key)
 	case "any":
 		if r.chance(50) {
 			return c04WeirdValue(r, 1)
 		}
-		return pick(r, []*jNode{jStr("a"), jNum("1"), jBool(true), jNum("1.5"), jStr("")})
+		return pick(r, []*c04JNode{c04JStr("a"), c04JNum("1"), c04JBool(true), c04JNum("1.5"), c04JStr("")})
 	case "list":
 		n := r.intn(3)
 		if depth <= 2 && n == 0 {
 			n = 1
 		}
-		out := jArr()
+		out := c04JArr()
 		for i := 0; i < n; i++ {
 			out.vals = append(out.vals, g.gen(t.Elem, key, depth+1))
 		}
 		return out
 	case "map":
-		out := jObj()
+		out := c04JObj()
 		for i := r.intn(3); i > 0; i-- {
 			k := g.str(key + "#key").s
 			switch strings.ToLower(key) {
@@ -429,10 +444,10 @@ func (g *cfgGen) gen(t *cfgTy, key string, depth int) *jNode {
 	case "struct":
 		return g.genStruct(t, "", key, depth)
 	}
-	return jNull()
+	return c04JNull()
 }
 
-func (g *cfgGen) genNamed(d cfgDef, key string, depth int) *jNode {
+func (g *c04CfgGen) genNamed(d c04CfgDef, key string, depth int) *c04JNode {
 	if d.Ty.K == "struct" {
 		return g.genStruct(d.Ty, d.Name, key, depth)
 	}
@@ -441,7 +456,7 @@ func (g *cfgGen) genNamed(d cfgDef, key string, depth int) *jNode {
 
 // union-like structs (every field a pointer to a struct: CompilerPass, BuilderRule, OptionRule,
 // Input, OutputLanguage) get one key most of the time
-func cfgUnionLike(t *cfgTy) bool {
+func c04CfgUnionLike(t *c04CfgTy) bool {
 	if len(t.Fields) < 5 {
 		return false
 	}
@@ -454,12 +469,12 @@ func cfgUnionLike(t *cfgTy) bool {
 	return refs*10 >= len(t.Fields)*8
 }
 
-func (g *cfgGen) genStruct(t *cfgTy, name, key string, depth int) *jNode {
+func (g *c04CfgGen) genStruct(t *c04CfgTy, name, key string, depth int) *c04JNode {
 	r := g.r
-	out := jObj()
-	if cfgUnionLike(t) {
+	out := c04JObj()
+	if c04CfgUnionLike(t) {
 		n := 1
-		if r.chance(6) {
+		if r.chance(g.fault) {
 			n = r.intn(3)
 		}
 		for i := 0; i < n; i++ {
@@ -476,15 +491,31 @@ func (g *cfgGen) genStruct(t *cfgTy, name, key string, depth int) *jNode {
 		}
 	}
 	chosenSel := ""
-	if len(selKeys) > 0 && !r.chance(5) {
+	if len(selKeys) > 0 && !r.chance(g.fault) {
 		chosenSel = pick(r, selKeys)
 	}
+	savedOpt := g.optSel
+	for _, f := range t.Fields {
+		if f.Key == "by_builder" {
+			g.optSel = true
+		}
+		if f.Key == "by_object" {
+			g.optSel = false
+		}
+	}
+	defer func() { g.optSel = savedOpt }()
 	for _, f := range t.Fields {
 		if selectors[f.Key] {
-			if f.Key != chosenSel && !r.chance(4) {
+			if f.Key != chosenSel && !r.chance(g.fault) {
 				continue
 			}
-		} else if f.Key == "passestrail" || (depth > 1 && r.chance(30)) || (f.Key == "url") && !r.chance(5) {
+		} else if f.Key == "passestrail" || (f.Key == "url") && !r.chance(5) {
+			continue
+		} else if f.Ty.K == "scalar" && f.Ty.Go == "string" {
+			if r.chance(g.fault * 2) {
+				continue
+			}
+		} else if depth > 1 && r.chance(30) {
 			continue
 		}
 		out.set(f.Key, g.gen(f.Ty, f.Key, depth+1))
@@ -496,27 +527,30 @@ func (g *cfgGen) genStruct(t *cfgTy, name, key string, depth int) *jNode {
 	return out
 }
 
-func (g *cfgGen) document() *jNode {
+func (g *c04CfgGen) document() *c04JNode {
 	g.asbad, g.faults = false, 0
 	return g.genNamed(g.file.Defs[g.file.Root], "", 0)
 }
 
 // YAML-only spellings on top of the JSON flow text
-func cfgYAMLify(r *rng, text string) string {
+func c04CfgYAMLify(r *rng, text string) string {
 	switch r.intn(12) {
 	case 0:
 		return strings.Replace(text, "null", "~", 1)
 	case 1:
 		return strings.Replace(text, "true", pick(r, []string{"yes", "on", "True", "!!bool true", "!!str true"}), 1)
 	case 2:
-		if i := strings.Index(text, "{"); i >= 0 {
-			if j := strings.Index(text[i+1:], "{"); j >= 0 {
-				k := i + 1 + j
-				return text[:k] + "&a " + text[k:len(text)-1] + ",\"zz\":*a}"
+		// anchor on the first string value, alias on the second
+		if i := strings.Index(text, ":\""); i >= 0 {
+			if j := strings.Index(text[i+2:], ":\""); j >= 0 {
+				k := i + 2 + j
+				if e := strings.Index(text[k+2:], "\""); e >= 0 {
+					return text[:i+1] + "&a " + text[i+1:k+1] + "*a" + text[k+2+e+1:]
+				}
 			}
 		}
 	case 3:
-		return "%YAML 1.2\n---\n" + text + "\n...\n"
+		return "---\n" + text + "\n...\n"
 	case 4:
 		return text + "\n---\n" + text
 	case 5:
@@ -525,17 +559,17 @@ func cfgYAMLify(r *rng, text string) string {
 	return text
 }
 
-var cfgObjNames = append([]string{"Container", "Entry", "SomeStruct", "Value1"}, irObjNames...)
+var c04CfgObjNames = append([]string{"Container", "Entry", "SomeStruct", "Value1"}, irObjNames...)
 
-func newCfgGen(r *rng, file *cfgFile, fault int) *cfgGen {
-	return &cfgGen{r: r, file: file, fault: fault, pkgs: []string{"p", "q", "corpus", "nope"}, objs: cfgObjNames, fields: irFieldNames,
+func c04NewCfgGen(r *rng, file *c04CfgFile, fault int) *c04CfgGen {
+	return &c04CfgGen{r: r, file: file, fault: fault, pkgs: []string{"p", "q", "corpus", "nope"}, objs: c04CfgObjNames, fields: irFieldNames,
 		paths: []string{"", ".", "%__config_dir%/in", "%__config_dir%/in/schema.json", "%__config_dir%/passes.yaml", "%__config_dir%/veneers", "%__config_dir%/nope", "/nonexistent/x", "%l", "out/%l"}, maxDep: 9}
 }
 
 // ---------- cases ----------
 
-func c04PassesYAMLCase(r *rng, files map[string]*cfgFile, seed uint64, i int, fault int) *c04Case {
-	g := newCfgGen(r, files["compiler"], fault)
+func c04PassesYAMLCase(r *rng, files map[string]*c04CfgFile, seed uint64, i int, fault int) *c04Case {
+	g := c04NewCfgGen(r, files["compiler"], fault)
 	g.pkgs = []string{"p", "p", "q", "nope"}
 	g.objs = irObjNames
 	doc := g.document()
@@ -548,13 +582,13 @@ func c04PassesYAMLCase(r *rng, files map[string]*cfgFile, seed uint64, i int, fa
 			}
 		}
 	}
-	text := cfgYAMLify(r, doc.String())
+	text := c04CfgYAMLify(r, doc.String())
 	return &c04Case{ID: fmt.Sprintf("passes-yaml/%d/%d", seed, i), Kind: "passes-yaml", Seed: seed, Idx: i, Yaml: text,
 		Note: fmt.Sprintf("passes-yaml asbad=%v faults=%d", g.asbad, g.faults)}
 }
 
-func c04VeneersYAMLCase(r *rng, files map[string]*cfgFile, seed uint64, i int, fault int) *c04Case {
-	g := newCfgGen(r, files["veneers"], fault)
+func c04VeneersYAMLCase(r *rng, files map[string]*c04CfgFile, seed uint64, i int, fault int) *c04Case {
+	g := c04NewCfgGen(r, files["veneers"], fault)
 	g.pkgs = []string{"p", "p", "q"}
 	g.objs = irObjNames
 	doc := g.document()
@@ -568,26 +602,26 @@ func c04VeneersYAMLCase(r *rng, files map[string]*cfgFile, seed uint64, i int, f
 			}
 		}
 	}
-	text := cfgYAMLify(r, doc.String())
+	text := c04CfgYAMLify(r, doc.String())
 	return &c04Case{ID: fmt.Sprintf("veneers-yaml/%d/%d", seed, i), Kind: "veneers-yaml", Seed: seed, Idx: i, Yaml: text,
 		Note: fmt.Sprintf("veneers-yaml asbad=%v faults=%d", g.asbad, g.faults)}
 }
 
 // a pipeline configuration document, with a real schema next to it and generated transformation files
-func c04ConfigCase(r *rng, files map[string]*cfgFile, seeds []c04Seed, i int, fault int) *c04Case {
+func c04ConfigCase(r *rng, files map[string]*c04CfgFile, seeds []c04Seed, i int, fault int) *c04Case {
 	s := pick(r, seeds)
 	c := &c04Case{ID: fmt.Sprintf("config/%d", i), Kind: "run", Config: "cog.yaml", Files: map[string][]byte{}}
 	for rel, data := range s.files {
 		c.Files[c04InputDir(s)+"/"+rel] = c04CuePackage(s, rel, data)
 	}
-	g := newCfgGen(r, files["pipeline"], fault)
+	g := c04NewCfgGen(r, files["pipeline"], fault)
 	g.pkgs = []string{s.pkg, s.pkg, "p"}
 	doc := g.document()
 	notes := []string{"config", "seed=" + s.format + "/" + s.name}
 	if doc.kind == "obj" {
 		// most documents keep a loadable input and output so that the run goes past the loader
 		if r.chance(75) {
-			ins := jArr(c04InputNode(s.format, s.pkg, s.main, r.chance(50)))
+			ins := c04JArr(c04InputNode(s.format, s.pkg, s.main, r.chance(50)))
 			if r.chance(25) {
 				if extra := doc.get("inputs"); extra != nil && extra.kind == "arr" {
 					ins.vals = append(ins.vals, extra.vals...)
@@ -595,12 +629,12 @@ func c04ConfigCase(r *rng, files map[string]*cfgFile, seeds []c04Seed, i int, fa
 			}
 			if r.chance(30) {
 				in0 := ins.vals[0].vals[0]
-				in0.set("transformations", jArr(jStr("%__config_dir%/passes.yaml")))
+				in0.set("transformations", c04JArr(c04JStr("%__config_dir%/passes.yaml")))
 				if r.chance(30) {
-					in0.set("allowed_objects", jArr(jStr(pick(r, cfgObjNames)), jStr(s.pkg)))
+					in0.set("allowed_objects", c04JArr(c04JStr(pick(r, c04CfgObjNames)), c04JStr(s.pkg)))
 				}
 				if r.chance(30) {
-					in0.set("metadata", jObj("kind", jStr(pick(r, []string{"core", "composable", "nope"})), "variant", jStr(pick(r, []string{"dataquery", "panelcfg", "", "nope"})), "identifier", jStr(pick(r, []string{"", "id"}))))
+					in0.set("metadata", c04JObj("kind", c04JStr(pick(r, []string{"core", "composable", "nope"})), "variant", c04JStr(pick(r, []string{"dataquery", "panelcfg", "", "nope"})), "identifier", c04JStr(pick(r, []string{"", "id"}))))
 				}
 			}
 			doc.set("inputs", ins)
@@ -619,16 +653,16 @@ func c04ConfigCase(r *rng, files map[string]*cfgFile, seeds []c04Seed, i int, fa
 			notes = append(notes, o.describe())
 		}
 		if r.chance(60) {
-			doc.set("transformations", jObj("schemas", jArr(jStr("%__config_dir%/passes.yaml")), "builders", jArr(jStr("%__config_dir%/veneers"))))
+			doc.set("transformations", c04JObj("schemas", c04JArr(c04JStr("%__config_dir%/passes.yaml")), "builders", c04JArr(c04JStr("%__config_dir%/veneers"))))
 		}
 	}
-	c.Files["cog.yaml"] = []byte(cfgYAMLify(r, doc.String()))
-	pg := newCfgGen(r, files["compiler"], fault)
+	c.Files["cog.yaml"] = []byte(c04CfgYAMLify(r, doc.String()))
+	pg := c04NewCfgGen(r, files["compiler"], fault)
 	pg.pkgs = []string{s.pkg, s.pkg, "p"}
-	c.Files["passes.yaml"] = []byte(cfgYAMLify(r, pg.document().String()))
-	vg := newCfgGen(r, files["veneers"], fault)
+	c.Files["passes.yaml"] = []byte(c04CfgYAMLify(r, pg.document().String()))
+	vg := c04NewCfgGen(r, files["veneers"], fault)
 	vg.pkgs = []string{s.pkg}
-	c.Files["veneers/a.yaml"] = []byte(cfgYAMLify(r, vg.document().String()))
+	c.Files["veneers/a.yaml"] = []byte(c04CfgYAMLify(r, vg.document().String()))
 	if r.chance(15) {
 		c.Files["veneers/b.yaml"] = []byte(pick(r, []string{"~", "", "null", "[]", "{}", "language: all\npackage: x\nbuilders: [~]\n", "language: all\npackage: x\noptions: [~]\n", "package: x\nbuilders: ~\n"}))
 	}
@@ -687,7 +721,7 @@ func c04ConfigCorpus() []*c04Case {
 	return cases
 }
 
-func cfgSortedNames(m map[string]*cfgFile) []string {
+func c04CfgSortedNames(m map[string]*c04CfgFile) []string {
 	var out []string
 	for k := range m {
 		out = append(out, k)
